@@ -52,23 +52,14 @@ class Clip(Spec):
         return a
 
     def requires(self, cx, a):
-        return [
-            ("len(Y) == len(X)", V.s_cmp("==", a.Y.shape[0], a.X.shape[0])),
-            ("xmin <= xmax", V.s_cmp("<=", a.xmin, a.xmax)),
-            ("ymin <= ymax", V.s_cmp("<=", a.ymin, a.ymax)),
-        ]
+        return [("len(Y) == len(X)", V.s_cmp("==", a.Y.shape[0], a.X.shape[0]))]
 
     def model(self, cx, a):
         X, Y = a.X.fn, a.Y.fn
         lo_x, hi_x, lo_y, hi_y = V.to_real(a.xmin), V.to_real(a.xmax), V.to_real(a.ymin), V.to_real(a.ymax)
-        cx.set_arr(a.X, fn=lambda p: z3.If(X(p) > hi_x, hi_x, z3.If(X(p) < lo_x, lo_x, X(p))))
-        cx.set_arr(a.Y, fn=lambda p: z3.If(Y(p) > hi_y, hi_y, z3.If(Y(p) < lo_y, lo_y, Y(p))))
+        cx.set_arr(a.X, fn=lambda p: clip_term(X(p), lo_x, hi_x))
+        cx.set_arr(a.Y, fn=lambda p: clip_term(Y(p), lo_y, hi_y))
         return None
-
-    def ensures(self, cx, a, result):
-        # identity on positions that are already inside (used by the "interior" precondition of C01)
-        p = z3.Int("p_gen")
-        return []
 
 
 class RK4avg(Spec):
@@ -87,3 +78,425 @@ class RK4avg(Spec):
     def model(self, cx, a):
         f1, f2, f3, f4 = a.U1.fn, a.U2.fn, a.U3.fn, a.U4.fn
         return Arr(a.U1.shape, lambda p: (f1(p) + 2 * f2(p) + 2 * f3(p) + f4(p)) / 6, "real")
+
+
+# ---------------------------------------------------------------- advection schemes
+
+from pyvc.interp import BoundMethod, ForallP, Obj, PyFunc  # noqa: E402
+
+from .common import AbstractForce, Rng, at_sea, in_valid, make_grid, make_state, valid_pos, velU, velV  # noqa: E402
+from .roms_grid import GRID_CALLEES  # noqa: E402
+
+# Butcher tableaux (A strictly lower triangular, b, c): what "the selected scheme" means
+TABLEAUX = {
+    "EF": dict(A=[[]], b=[1], c=[0], order=1),
+    # two-stage family: c2 = a21 = s, b = (1 - 1/(2s), 1/(2s)); s = 1/2 midpoint, 2/3 Ralston, 1 Heun
+    "RK2-midpoint": dict(A=[[], [Fraction(1, 2)]], b=[0, 1], c=[0, Fraction(1, 2)], order=2),
+    "RK2-heun": dict(A=[[], [1]], b=[Fraction(1, 2), Fraction(1, 2)], c=[0, 1], order=2),
+    "RK2-ralston": dict(A=[[], [Fraction(2, 3)]], b=[Fraction(1, 4), Fraction(3, 4)], c=[0, Fraction(2, 3)], order=2),
+    "RK4": dict(
+        A=[[], [Fraction(1, 2)], [0, Fraction(1, 2)], [0, 0, 1]],
+        b=[Fraction(1, 6), Fraction(1, 3), Fraction(1, 3), Fraction(1, 6)],
+        c=[0, Fraction(1, 2), Fraction(1, 2), 1],
+        order=4,
+    ),
+}
+
+
+def clip_term(x, lo, hi):
+    """x limited to [lo, hi] (the lower limit wins if the interval is empty)."""
+    m = z3.If(x > hi, hi, x)
+    return z3.If(m < lo, lo, m)
+
+
+def rk_velocity(tab, x, y, z, dtdx, dtdy, lim):
+    """Step velocity sum_s b_s k_s of an explicit Runge-Kutta tableau for dX/dt = u/dx, dY/dt = v/dy,
+    stage positions clipped to the forcing domain, stage times c_s (fractions of the step)."""
+    A, b, c = tab["A"], tab["b"], tab["c"]
+    ku, kv = [], []
+    xlo, xhi, ylo, yhi = lim
+    for s in range(len(b)):
+        if s == 0:
+            xs, ys = x, y
+        else:
+            xs = x + dtdx * sum((V.to_z3(A[s][r]) * ku[r] for r in range(s) if A[s][r] != 0), z3.RealVal(0))
+            ys = y + dtdy * sum((V.to_z3(A[s][r]) * kv[r] for r in range(s) if A[s][r] != 0), z3.RealVal(0))
+            xs, ys = clip_term(xs, xlo, xhi), clip_term(ys, ylo, yhi)
+        cs = V.to_real(V.to_z3(c[s]))
+        ku.append(velU(xs, ys, z, cs))
+        kv.append(velV(xs, ys, z, cs))
+    u = sum((V.to_z3(b[s]) * ku[s] for s in range(len(b)) if b[s] != 0), z3.RealVal(0))
+    v = sum((V.to_z3(b[s]) * kv[s] for s in range(len(b)) if b[s] != 0), z3.RealVal(0))
+    return u, v
+
+
+def make_tracker(cx, n, advection, grid=None, force=None):
+    grid = grid or make_grid(cx)
+    dt = z3.Real("dt")
+    cx.assume(dt > 0)
+    trk = Obj(
+        "ladim.tracker.Tracker",
+        dt=dt,
+        advection=advection,
+        diffusion=z3.Bool("sw_diffusion"),
+        vertdiff=z3.Bool("sw_vertdiff"),
+        vertical_advection=z3.Bool("sw_vertadv"),
+        D=z3.Real("D"),
+        Dz=z3.Real("Dz"),
+        rng=Rng(),
+    )
+    cx.assume(z3.And(trk.attrs["D"] >= 0, trk.attrs["Dz"] >= 0))
+    cx.assume(trk.attrs["diffusion"] == (trk.attrs["D"] > 0))
+    cx.assume(trk.attrs["vertdiff"] == (trk.attrs["Dz"] > 0))
+    return trk, grid
+
+
+class _Scheme(Spec):
+    scheme = ""
+    tableau = ""
+    properties = ("C01", "C17")
+
+    def inputs(self, cx):
+        n = N(cx)
+        trk, grid = make_tracker(cx, n, self.scheme)
+        g = grid.attrs
+        c = z3.RealVal("1/100")
+        trk.attrs.update(xmin=g["xmin"] + c, xmax=g["xmax"] - c, ymin=g["ymin"] + c, ymax=g["ymax"] - c)
+        trk.attrs.update(particle_arrays(n, ["dx", "dy"]))
+        a = Args(self=trk)
+        a.update(particle_arrays(n, ["X", "Y", "Z"]))
+        a.force = AbstractForce(grid, n)
+        a._grid = grid
+        return a
+
+    def call_args(self, a):
+        return [a.self, a.X, a.Y, a.Z, a.force], {}
+
+    def requires(self, cx, a):
+        n = a.X.shape[0]
+        dx, dy = a.self.attrs["dx"].fn, a.self.attrs["dy"].fn
+        grid = a.force.grid
+        return [
+            ("len(Y) == len(X)", V.s_cmp("==", a.Y.shape[0], n)),
+            ("len(Z) == len(X)", V.s_cmp("==", a.Z.shape[0], n)),
+            ("the loaded grid has a non-empty valid region", grid.attrs["imax"] >= 3),
+            ("metric positive", ForallP(n, lambda p: z3.And(dx(p) > 0, dy(p) > 0))),
+            ("every position lies in the valid region", valid_pos(grid, a.X, a.Y)),
+        ]
+
+    def model(self, cx, a):
+        tab = TABLEAUX[self.tableau]
+        t = a.self.attrs
+        fx, fy, fz = a.X.fn, a.Y.fn, a.Z.fn
+        dx, dy = t["dx"].fn, t["dy"].fn
+        dt = t["dt"]
+        lim = (t["xmin"], t["xmax"], t["ymin"], t["ymax"])
+        n = a.X.shape[0]
+        a.force.calls.extend(V.to_real(V.to_z3(c)) for c in tab["c"])
+        U = Arr((n,), lambda p: rk_velocity(tab, fx(p), fy(p), fz(p), dt / dx(p), dt / dy(p), lim)[0], "real")
+        Vv = Arr((n,), lambda p: rk_velocity(tab, fx(p), fy(p), fz(p), dt / dx(p), dt / dy(p), lim)[1], "real")
+        return (U, Vv)
+
+    def compare_roots(self, a, b, result):
+        return [("input X unchanged", a.X, b.X), ("input Y unchanged", a.Y, b.Y), ("input Z unchanged", a.Z, b.Z)]
+
+    callees = {"ladim.tracker.RKstep": RKstep(), "ladim.tracker.clip": Clip(), "ladim.tracker.RK4avg": RK4avg()}
+    inline = ()
+
+
+class EF(_Scheme):
+    func = "ladim.tracker.Tracker.EF"
+    name = "Tracker.EF"
+    scheme = "EF"
+    tableau = "EF"
+
+
+class RK2(_Scheme):
+    func = "ladim.tracker.Tracker.RK2"
+    name = "Tracker.RK2"
+    scheme = "RK2"
+    tableau = "RK2-midpoint"
+
+
+class RK4(_Scheme):
+    func = "ladim.tracker.Tracker.RK4"
+    name = "Tracker.RK4"
+    scheme = "RK4"
+    tableau = "RK4"
+
+
+# ---------------------------------------------------------------- diffusion
+
+
+class Diffuse(Spec):
+    """Two independent draws scaled by sqrt(2 D / dt) (a velocity)."""
+
+    func = "ladim.tracker.Tracker.diffuse"
+    name = "Tracker.diffuse"
+    properties = ("C11",)
+    inline = ()
+
+    def inputs(self, cx):
+        trk, _grid = make_tracker(cx, None, "")
+        return Args(self=trk, num_particles=N(cx))
+
+    def model(self, cx, a):
+        t = a.self.attrs
+        s = V.s_sqrt(2 * t["D"] / t["dt"])
+        n = a.num_particles
+        rng = t["rng"]
+        normal = rng.pv_getattr(cx, "normal")
+        xa = normal(None, size=n)
+        xb = normal(None, size=n)
+        fa, fb = xa.fn, xb.fn
+        return (Arr((n,), lambda p: s * fa(p), "real"), Arr((n,), lambda p: s * fb(p), "real"))
+
+    def compare_roots(self, a, b, result):
+        return [("random generator", a.self.attrs["rng"], b.self.attrs["rng"])]
+
+    def ensures(self, cx, a, result):
+        t = a.self.attrs
+        n = a.num_particles
+        out = []
+        if isinstance(result, tuple) and len(result) == 2 and all(isinstance(r, Arr) for r in result):
+            U, Vv = result
+            xi1, xi2 = z3.Function("xi1", z3.IntSort(), z3.RealSort()), z3.Function("xi2", z3.IntSort(), z3.RealSort())
+            c = z3.Real("c_diff")
+            fu, fv = U.fn, Vv.fn
+            # variance algebra: U = c*xi_a, V = c*xi_b with c >= 0 and c^2 == 2 D / dt
+            cval = V.s_sqrt(2 * t["D"] / t["dt"])
+            out.append(("U[p] == c*xi_1[p], V[p] == c*xi_2[p] with c >= 0 and c^2 == 2*D/dt (distinct draws)", ForallP(n, lambda p: z3.And(fu(p) == cval * xi1(p), fv(p) == cval * xi2(p), cval >= 0, cval * cval == 2 * t["D"] / t["dt"]))))
+        return out
+
+
+class DiffuseVert(Spec):
+    func = "ladim.tracker.Tracker.diffuse_vert"
+    name = "Tracker.diffuse_vert"
+    properties = ("C11",)
+    inline = ()
+
+    def inputs(self, cx):
+        trk, _grid = make_tracker(cx, None, "")
+        return Args(self=trk, num_particles=N(cx))
+
+    def model(self, cx, a):
+        t = a.self.attrs
+        s = V.s_sqrt(2 * t["Dz"] / t["dt"])
+        n = a.num_particles
+        normal = t["rng"].pv_getattr(cx, "normal")
+        xa = normal(None, size=n)
+        fa = xa.fn
+        return Arr((n,), lambda p: s * fa(p), "real")
+
+    def compare_roots(self, a, b, result):
+        return [("random generator", a.self.attrs["rng"], b.self.attrs["rng"])]
+
+    def ensures(self, cx, a, result):
+        t = a.self.attrs
+        cval = V.s_sqrt(2 * t["Dz"] / t["dt"])
+        return [("c >= 0 and c^2 == 2*Dz/dt", z3.And(cval >= 0, cval * cval == 2 * t["Dz"] / t["dt"]))]
+
+
+# ---------------------------------------------------------------- Tracker.update
+
+
+class Update(Spec):
+    """One tracking step (properties C01.6, C09, C11, C15; frame for C14).
+
+    The specification is written from the property statements: displacement
+    U*dt/dx with the metric of the start cell; a move leaving the valid region
+    kills (and inactivates) the particle; inactive particles and moves onto land
+    keep their position; depth moves by (Wdiff + w)*dt, reflected at the surface
+    and at the bottom depth of the start cell."""
+
+    func = "ladim.tracker.Tracker.update"
+    properties = ("C01", "C09", "C11", "C14", "C15", "C17")
+    scheme = ""
+    inline = ("ladim.state.State.__getattr__", "ladim.state.State.__setitem__", "ladim.state.State.__getitem__", "ladim.state.State.__len__")
+
+    def __init__(self, scheme=""):
+        self.scheme = scheme
+        self.name = f"Tracker.update[{scheme or 'no advection'}]"
+        self.callees = dict(GRID_CALLEES)
+        self.callees.update(
+            {
+                "ladim.tracker.Tracker.EF": EF(),
+                "ladim.tracker.Tracker.RK2": RK2(),
+                "ladim.tracker.Tracker.RK4": RK4(),
+                "ladim.tracker.Tracker.diffuse": Diffuse(),
+                "ladim.tracker.Tracker.diffuse_vert": DiffuseVert(),
+            }
+        )
+
+    def inputs(self, cx):
+        n = N(cx)
+        trk, grid = make_tracker(cx, n, self.scheme)
+        state = make_state(cx, n)
+        W = sym_array("force_w", (z3.Int("nK"),), "real")
+        force = AbstractForce(grid, z3.Int("nK"), W=W)
+        trk.attrs["modules"] = dict(state=state, grid=grid, forcing=force)
+        if self.scheme:
+            cx_repo = cx.repo
+            mod, cname, node = cx_repo.lookup(f"ladim.tracker.Tracker.{self.scheme}")
+            trk.attrs["advect"] = BoundMethod(trk, PyFunc(f"ladim.tracker.Tracker.{self.scheme}", mod, cname, node))
+        return Args(self=trk)
+
+    def requires(self, cx, a):
+        t = a.self.attrs
+        st = t["modules"]["state"]
+        grid = t["modules"]["grid"]
+        force = t["modules"]["forcing"]
+        v = st.attrs["variables"]
+        n = v["X"].shape[0]
+        fx, fy, fz = v["X"].fn, v["Y"].fn, v["Z"].fn
+        H = grid.attrs["H"].fn
+        from .common import cell_index
+
+        return [
+            ("grid has a non-empty valid region", z3.And(grid.attrs["imax"] >= 3, grid.attrs["jmax"] >= 3)),
+            # state invariant (C09): every particle in the state sits in the valid region, in a sea cell
+            ("state invariant: positions valid", valid_pos(grid, v["X"], v["Y"])),
+            ("state invariant: positions at sea", ForallP(n, lambda p: at_sea(grid, fx(p), fy(p)))),
+            ("state invariant: active particles are alive", ForallP(n, lambda p: z3.Implies(v["active"].fn(p), v["alive"].fn(p)))),
+            # alignment (C14): the forcing's cached per-particle arrays belong to this state
+            ("forcing was evaluated for exactly these particles", force.nK == V.to_z3(n)),
+        ]
+
+    def model(self, cx, a):
+        from .common import cell_index
+
+        t = a.self.attrs
+        st = t["modules"]["state"]
+        grid = t["modules"]["grid"]
+        force = t["modules"]["forcing"]
+        v = st.attrs["variables"]
+        n = v["X"].shape[0]
+        fx, fy, fz = v["X"].fn, v["Y"].fn, v["Z"].fn
+        alive, active = v["alive"].fn, v["active"].fn
+        dxa, dya, Ha = grid.attrs["dx"].fn, grid.attrs["dy"].fn, grid.attrs["H"].fn
+        dt = t["dt"]
+        g = grid.attrs
+        c = z3.RealVal("1/100")
+        lim = (g["xmin"] + c, g["xmax"] - c, g["ymin"] + c, g["ymax"] - c)
+        tab = {"": None, "EF": TABLEAUX["EF"], "RK2": TABLEAUX["RK2-midpoint"], "RK4": TABLEAUX["RK4"]}[self.scheme]
+        normal = t["rng"].pv_getattr(cx, "normal")
+
+        M = V.memo
+        dx_p = M(lambda p: dxa(*cell_index(grid, fx(p), fy(p))))
+        dy_p = M(lambda p: dya(*cell_index(grid, fx(p), fy(p))))
+
+        zero = z3.RealVal(0)
+        if tab is not None:
+            uadv = M(lambda p: rk_velocity(tab, fx(p), fy(p), fz(p), dt / dx_p(p), dt / dy_p(p), lim)[0])  # noqa: E731
+            vadv = M(lambda p: rk_velocity(tab, fx(p), fy(p), fz(p), dt / dx_p(p), dt / dy_p(p), lim)[1])  # noqa: E731
+        else:
+            uadv = vadv = lambda p: zero  # noqa: E731
+        info = dict(diff=False, vdiff=False, vadv=False)
+        if cx.decide(t["diffusion"]):
+            xa, xb = normal(None, size=n), normal(None, size=n)
+            s = V.s_sqrt(2 * t["D"] / dt)
+            fa, fb = xa.fn, xb.fn
+            u = M(lambda p: uadv(p) + s * fa(p))  # noqa: E731
+            w_ = M(lambda p: vadv(p) + s * fb(p))  # noqa: E731
+            info.update(diff=True, s=s, xa=fa, xb=fb)
+        else:
+            u, w_ = uadv, vadv
+        X1 = M(lambda p: fx(p) + u(p) * dt / dx_p(p))  # noqa: E731
+        Y1 = M(lambda p: fy(p) + w_(p) * dt / dy_p(p))  # noqa: E731
+        out = M(lambda p: z3.Not(in_valid(grid, X1(p), Y1(p))))  # noqa: E731
+        alive1 = M(lambda p: z3.And(alive(p), z3.Not(out(p))))  # noqa: E731
+        active1 = M(lambda p: z3.And(active(p), z3.Not(out(p))))  # noqa: E731
+        moved = M(lambda p: z3.And(active1(p), at_sea(grid, X1(p), Y1(p))))  # noqa: E731
+        v["X"] = Arr((n,), lambda p: z3.If(moved(p), X1(p), fx(p)), "real")
+        v["Y"] = Arr((n,), lambda p: z3.If(moved(p), Y1(p), fy(p)), "real")
+        v["alive"] = Arr((n,), alive1, "bool")
+        v["active"] = Arr((n,), active1, "bool")
+        info.update(X1=X1, Y1=Y1, moved=moved, dx_p=dx_p, dy_p=dy_p)
+        if cx.decide(z3.Or(t["vertdiff"], t["vertical_advection"])):
+            h = M(lambda p: Ha(*cell_index(grid, fx(p), fy(p))))  # noqa: E731
+            d = lambda p: zero  # noqa: E731
+            if cx.decide(t["vertdiff"]):
+                xc = normal(None, size=n)
+                fc = xc.fn
+                sz = V.s_sqrt(2 * t["Dz"] / dt)
+                d = lambda p, d=d: d(p) + sz * fc(p) * dt  # noqa: E731
+                info.update(vdiff=True, sz=sz, xc=fc)
+            if cx.decide(t["vertical_advection"]):
+                wf = force.variables["w"].fn
+                d = lambda p, d=d: d(p) + wf(p) * dt  # noqa: E731
+                info.update(vadv=True)
+
+            def znew(p):
+                z1 = fz(p) + d(p)
+                z2 = z3.If(z1 < 0, -z1, z1)
+                return z3.If(z2 > h(p), 2 * h(p) - z2, z2)
+
+            v["Z"] = Arr((n,), znew, "real")
+            info.update(h=h, d=d)
+        self._info = info
+        return None
+
+    def compare_roots(self, a, b, result):
+        ta, tb = a.self.attrs, b.self.attrs
+        return [
+            ("state after the step", ta["modules"]["state"], tb["modules"]["state"]),
+            ("random generator", ta["rng"], tb["rng"]),
+        ]
+
+    def ensures(self, cx, a, result):
+        """Lemmas of the properties on the *real* post-state (pre-state symbols have fixed names)."""
+        from .common import cell_index
+
+        t = a.self.attrs
+        st = t["modules"]["state"]
+        grid = t["modules"]["grid"]
+        v = st.attrs["variables"]
+        n = v["X"].shape[0]
+        pre = make_state(cx, n).attrs["variables"]  # same symbols as the pre-state
+        fx, fy, fz = pre["X"].fn, pre["Y"].fn, pre["Z"].fn
+        nx, ny, nz = v["X"].fn, v["Y"].fn, v["Z"].fn
+        info = getattr(self, "_info", {})
+        out = [
+            ("C09: the dead stay dead (alive' => alive)", ForallP(n, lambda p: z3.Implies(v["alive"].fn(p), pre["alive"].fn(p)))),
+            ("C09: state invariant kept: every particle in the valid region", ForallP(n, lambda p: in_valid(grid, nx(p), ny(p)))),
+            ("C09: state invariant kept: every particle in a sea cell", ForallP(n, lambda p: at_sea(grid, nx(p), ny(p)))),
+            ("C09: inactive particles are not moved horizontally", ForallP(n, lambda p: z3.Implies(z3.Not(pre["active"].fn(p)), z3.And(nx(p) == fx(p), ny(p) == fy(p))))),
+            ("C09: a move that would leave the valid region kills the particle", ForallP(n, lambda p: z3.Implies(z3.Not(in_valid(grid, info["X1"](p), info["Y1"](p))), z3.And(z3.Not(v["alive"].fn(p)), z3.Not(v["active"].fn(p)))))),
+            ("C09: a move onto land is cancelled", ForallP(n, lambda p: z3.Implies(z3.And(in_valid(grid, info["X1"](p), info["Y1"](p)), z3.Not(at_sea(grid, info["X1"](p), info["Y1"](p)))), z3.And(nx(p) == fx(p), ny(p) == fy(p))))),
+            ("C09: active particles are alive", ForallP(n, lambda p: z3.Implies(v["active"].fn(p), v["alive"].fn(p)))),
+            ("C05: pid untouched", ForallP(n, lambda p: v["pid"].fn(p) == pre["pid"].fn(p))),
+        ]
+        if "h" in info:
+            h, d = info["h"], info["d"]
+            out.append(
+                (
+                    "C15: depth stays in [0, h(start cell)] when |displacement| < h",
+                    ForallP(n, lambda p: z3.Implies(z3.And(fz(p) >= 0, fz(p) <= h(p), d(p) < h(p), -d(p) < h(p)), z3.And(nz(p) >= 0, nz(p) <= h(p)))),
+                )
+            )
+        else:
+            out.append(("C15: both vertical switches off: depth array is the same object, unchanged", v["Z"] is self._z_before if hasattr(self, "_z_before") else True))
+            out.append(("C15: both vertical switches off: depth unchanged", ForallP(n, lambda p: nz(p) == fz(p))))
+        if info.get("diff") and self.scheme == "":
+            s, xa, xb, dx_p, dy_p, moved = info["s"], info["xa"], info["xb"], info["dx_p"], info["dy_p"], info["moved"]
+            dt, D = t["dt"], t["D"]
+            out.append(
+                (
+                    "C11: still water: displacement == c*xi with c^2 == 2*D*dt/dx^2, separate draws per direction",
+                    ForallP(
+                        n,
+                        lambda p: z3.Implies(
+                            moved(p),
+                            z3.And(
+                                nx(p) - fx(p) == (s * dt / dx_p(p)) * xa(p),
+                                ny(p) - fy(p) == (s * dt / dy_p(p)) * xb(p),
+                                (s * dt / dx_p(p)) * (s * dt / dx_p(p)) * dx_p(p) * dx_p(p) == 2 * D * dt,
+                                (s * dt / dy_p(p)) * (s * dt / dy_p(p)) * dy_p(p) * dy_p(p) == 2 * D * dt,
+                            ),
+                        ),
+                    ),
+                )
+            )
+        if not info.get("diff") and not info.get("vdiff"):
+            out.append(("C11/C14: no random draw when the diffusion coefficients are zero", t["rng"].draws == 0))
+        return out
